@@ -7,10 +7,12 @@ from .. import lbgen, lbshadow
 from . import c02
 
 ID = "C05"
-MODULES = ["Helios.Props.C05", "Helios.Props.C05W"]
+MODULES = ["Helios.Props.CodeStrat", "Helios.Props.C05", "Helios.Props.C05W"]
 THEOREMS = ["Helios.LB.rr_exact", "Helios.LB.lc_min", "Helios.LB.normWeight_pos",
             "Helios.WRR.wrr_exact", "Helios.WRR.wrr_period", "Helios.WRR.wrr_window", "Helios.LB.core_refines",
-            "Helios.WRR.wrr_drift", "Helios.LB.core_refines_elig", "Helios.LB.reset_fresh"]
+            "Helios.WRR.wrr_drift", "Helios.LB.core_refines_elig", "Helios.LB.reset_fresh",
+            # Tie C: NextBackend of round_robin and least_connections as written are the model's rrPick / lcPick
+            "Helios.CodeTie.rrNext_refines", "Helios.CodeTie.lcNext_refines", "Helios.CodeTie.translation_clean_strat"]
 SEC = lbgen.SEC
 
 
